@@ -346,8 +346,13 @@ Http::One::RequestParser::doParse(const SBuf &aBuf)
     if (parsingStage_ == HTTP_PARSE_NONE) {
         skipGarbageLines();
 
+        // a lone CR may be the first half of a tolerated leading CRLF; wait
+        // for the next byte instead of treating that CR as a request-line
+        const bool halfEmptyLine = Config.onoff.relaxed_header_parser &&
+                                   buf_.length() == 1 && buf_[0] == '\r';
+
         // if we hit something before EOS treat it as a message
-        if (!buf_.isEmpty())
+        if (!buf_.isEmpty() && !halfEmptyLine)
             parsingStage_ = HTTP_PARSE_FIRST;
         else
             return false;
